@@ -504,7 +504,7 @@ def toggle_case(draw, tier):
     bits = draw(bits_st(max_len=120, min_len=1))
     ops = [draw(c03.op_st(c03.ALL_OPS)) for _ in range(draw(st.integers(1, 4)))]
     ops = [dict(o, ba=False) if o['op'] == 'replace' and o.get('ba') is None else o for o in ops]
-    return {'bits': bits, 'ops': ops, 'toggles': draw(st.lists(st.sampled_from(['opt_true', 'opt_false', 'mod_true', 'mod_false']), min_size=1, max_size=5)),
+    return {'bits': bits, 'ops': ops, 'toggles': draw(st.lists(st.sampled_from(['opt_true', 'opt_false', 'mod_true', 'mod_false', 'opt_one', 'opt_zero', 'mod_one', 'mod_zero']), min_size=1, max_size=5)),
             'final': draw(st.booleans()), 'cls': draw(mcls_st), 'slice': draw(slice_st(len(bits))), 'pat': draw(bits_st(max_len=4, min_len=1))}
 
 
@@ -532,16 +532,23 @@ def run_toggle(case):
     bs = bitstring_module()
     import bitstring
     final = case['final']
+    ref = {}
+    for b in (True, False):
+        bs.options.lsb0 = b
+        ref[b] = probe(bs, case)
     bs.options.lsb0 = final
     first = probe(bs, case)
     for t in case['toggles']:
-        v = t.endswith('true')
+        v = t.endswith(('true', 'one'))
+        raw = v if t.endswith(('true', 'false')) else int(v)       # the option is a truth value: 1 / 0 switch it like True / False
         if t.startswith('opt'):
-            bs.options.lsb0 = v
+            bs.options.lsb0 = raw
         else:
-            bitstring.lsb0 = v       # deprecated module attribute
-        require(bs.options.lsb0 is v and bitstring.lsb0 is v, 'option value not visible through both spellings')
-        probe(bs, case)
+            bitstring.lsb0 = raw       # deprecated module attribute
+        require(bs.options.lsb0 is v and bitstring.lsb0 is v, 'option value not visible (as a bool) through both spellings', set_to=raw, got=bs.options.lsb0)
+        now = probe(bs, case)
+        require(now == ref[v], f'behaviour right after setting lsb0 to {raw!r} differs from the behaviour under lsb0={v}', toggle=t,
+                got=[str(f)[:60] for f in now][:6], expected=[str(f)[:60] for f in ref[v]][:6])
     bs.options.lsb0 = final
     again = probe(bs, case)
     bs.options.lsb0 = False
